@@ -143,6 +143,13 @@ class _Limit(object):
     @staticmethod
     def _get_arg_min(errors):
         shape = errors.shape
+        all_nan = np.isnan(errors).all(axis=0)
+        if all_nan.any() and not all_nan.all():
+            # columns without any valid estimate take their first row; they must not
+            # decide which row is chosen for the other columns
+            warnings.warn('All-NaN slice encountered')
+            errors = errors.copy()
+            errors[0, all_nan] = 0.0
         try:
             arg_mins = np.nanargmin(errors, axis=0)
             min_errors = np.nanmin(errors, axis=0)
